@@ -127,7 +127,7 @@ func (famDecoder) Exec(scn int, raw json.RawMessage, t *Trace, _ map[string]stri
 		return err
 	}
 	t.Scenario(scn, raw)
-	ctr := FakeCtr{ID: "c1", Name: "c1", Image: "img", State: "running", Frames: in.Frames}
+	ctr := simpleCtr("c1", "c1", in.Frames)
 	fake := newFakeDocker(nil, scn, []FakeCtr{ctr}) // transport events are not part of this family's vocabulary
 	fake.frag = in.Frag
 	if in.Fault.Kind != "none" {
